@@ -78,8 +78,8 @@ def c_outcome(o):
         return "(OLocalErr %s)" % ctext(o["cls"])
     if k == "lost":
         return "OConnLost"
-    if k == "timeout":
-        return "OTimeout"
+    if k == "hang":
+        return "OHang"
     if k == "returned":
         return "OReturned"
     raise KeyError(k)
@@ -91,10 +91,10 @@ def c_case(case, canon, obs, quirks):
     if kind is None:
         kind = "(KBatch %s)" % clist(["(XInt %s)" % cZ(100 + i) for i in range(case.get("before", 0))])
     return ("{| cs_quirks := {| q_marshal_none_kwargs := %s; q_marshal_shallow := %s |}; cs_ser := %s; cs_kind := %s; "
-            "cs_exc := {| e_cls := %s; e_args := %s; e_attrs := %s |}; cs_before := %s; cs_out := %s; "
+            "cs_exc := {| e_cls := %s; e_args := %s; e_attrs := %s |}; cs_tb := (XStr %s); cs_before := %s; cs_out := %s; "
             "cs_server_open := %s; cs_client_conn := %s; cs_next_ok := %s |}") % (
         cbool(quirks["q_marshal_none_kwargs"]), cbool(quirks["q_marshal_shallow"]), SER_COQ[case["ser"]], kind,
-        c_cinfo(canon), clist([c_xval(a) for a in canon["args"]]), c_attrs(canon["attrs"]),
+        c_cinfo(canon), clist([c_xval(a) for a in canon["args"]]), c_attrs(canon["attrs"]), ctext("TB:" + canon["entry"]),
         cnat(obs["before"]), c_outcome(obs["out"]), cbool(obs["server_open"]), cbool(obs["client_conn"]), cbool(obs["next_ok"]))
 
 
@@ -109,10 +109,12 @@ def oracle(case, canon, obs):
     known = c07impl.whitelisted(cls)
     where = "%s/%s/%s" % (case["ser"], case["kind"], cls)
     k = out["o"]
-    if k in ("lost", "timeout"):
+    if k == "hang":
+        bad.append(("hang:no-reply-connection-kept", "%s: the method raised %s, the daemon neither answered nor closed the connection: the caller blocks (TimeoutError only because this client has a timeout)" % (where, short)))
+    elif k == "lost":
         if COMM in mro and SERR not in mro:
             bad.append(("no-reply:communication-error-from-method",
-                        "%s: the method raised %s, the daemon sent no reply and dropped the connection; caller got %s" % (where, short, "ConnectionClosedError" if k == "lost" else "TimeoutError")))
+                        "%s: the method raised %s, the daemon sent no reply and dropped the connection; caller got ConnectionClosedError" % (where, short)))
         elif "builtins.Exception" not in mro:
             bad.append(("no-reply:non-Exception-class", "%s: the method raised %s (not an Exception subclass): no reply, connection dropped" % (where, short)))
         else:
@@ -141,8 +143,12 @@ def oracle(case, canon, obs):
             want = sorted([kv for kv in canon["attrs"] if kv[0] != "_pyroTraceback"])
             if got != want:
                 bad.append(("attrs-differ", "%s: attributes %r arrived as %r" % (where, want, got)))
-            if ["_pyroTraceback", "TB"] not in out["attrs"]:
+            tok = [kv[1] for kv in out["attrs"] if kv[0] == "_pyroTraceback"]
+            if not tok or not tok[0]:
                 bad.append(("traceback-missing", "%s: the exception carries no remote traceback" % where))
+            elif tok[0] != "TB:" + canon["entry"]:
+                bad.append(("traceback-of-another-call", "%s: the remote traceback text describes %s, not the call that failed (entry point %s)%s" % (
+                    where, tok[0][3:], canon["entry"], "; the same exception instance was raised before by a %s call" % case["prior"] if case.get("prior") else "")))
             if case["kind"] == "batch" and obs["before"] != case.get("before", 0):
                 bad.append(("batch-position", "%s: exception raised after %d results instead of %d" % (where, obs["before"], case.get("before", 0))))
     else:
@@ -158,10 +164,12 @@ def oracle(case, canon, obs):
                 bad.append(("no-pyro-error-for-unserialisable", "%s: caller got %s (%r) instead of a Pyro error describing %s" % (where, out.get("cls"), text[:120], short)))
         if k == "fallback" and ("Original exception: %s: %s" % (canon["typerepr"], canon["str"])) not in text:
             bad.append(("fallback-does-not-describe-original", "%s: the generic error %r does not name the original class and message (%s: %s)" % (where, text[:160], canon["typerepr"], canon["str"][:80])))
+        if k == "fallback" and out["tb"] and out.get("tbtok") != "TB:" + canon["entry"]:
+            bad.append(("traceback-of-another-call", "%s: the traceback sent with the generic error describes %s, not the call that failed (entry point %s)" % (where, (out.get("tbtok") or "TB:?")[3:], canon["entry"])))
         if k == "fallback" and not out["tb"]:
             bad.append(("traceback-missing", "%s: the fallback error carries no remote traceback" % where))
     if k not in ("local",) and not obs["next_ok"]:
-        fam = "SecurityError" if SEC in mro else ("SerializeError" if SERR in mro else short)
+        fam = "SecurityError" if SEC in mro else ("SerializeError" if SERR in mro else "other-class")
         bad.append(("dead-connection-after:" + fam, "%s: the next call on the same proxy failed with %s (server closed the connection after replying, client kept it)" % (where, obs.get("next_exc"))))
     return bad
 
@@ -169,6 +177,10 @@ def oracle(case, canon, obs):
 # ---------------------------------------------------------------- generator
 WORDS = ["", "x", "boom", "not found", "a.b", "Error: 7", "café", "你好", "\U0001f600 ok", "line1\nline2", "'q\"", "\\", "0", " "]
 ATTR_NAMES = ["foo", "bar", "code2", "detail", "x", "_private", "payload", "Mixed_Case9", "_pyroTraceback"]
+# every shape of name vars(exc) can hold: plain, leading underscore, dunder (PEP 678 notes are vars(e)["__notes__"]),
+# strings that are not identifiers (set through __dict__)
+ODD_ATTR_NAMES = ["__notes__", "__notes__", "__custom__", "__x", "__", "___", "_", "__pyro", "_Cls__mangled", "has space", "1abc", "a.b",
+                  "", "ü-é", "with-dash", "class", "None", "k\tt", "__exception__", "args2", "0", "😀"]
 
 
 def gen_val(rng, depth=0):
@@ -203,7 +215,10 @@ def gen_attrs(rng, opaque):
     names = rng.sample(ATTR_NAMES[:-1], n)
     if rng.random() < 0.04:
         names.append("_pyroTraceback")
-    attrs = [[k, gen_val(rng)] for k in names]
+    if rng.random() < 0.3:
+        names += rng.sample(ODD_ATTR_NAMES, rng.choice([1, 1, 2]))
+        names = list(dict.fromkeys(names))
+    attrs = [[k, ([rng.choice(WORDS) or "n" for _ in range(rng.choice([1, 1, 2, 3]))] if k == "__notes__" else gen_val(rng))] for k in names]
     if opaque == "attr":
         attrs.append(["bad", dict(c07impl.OPAQUE) if rng.random() < 0.6 else [1, dict(c07impl.OPAQUE)]])
     if opaque == "bad":
@@ -247,6 +262,11 @@ def gen_cases(ctx, classes):
                             "alt_args": sh[1:5]}
                     if kind == "batch":
                         case["before"] = rng.choice([0, 1, 1, 2, 3])
+                    if rng.random() < 0.2:
+                        # history: the same exception instance was already raised once, from another entry point
+                        case["prior"] = rng.choice([k for k in c07impl.KINDS if k != kind])
+                        if rng.random() < 0.3:
+                            case["prior_ser"] = rng.choice(c07impl.SERIALIZERS)
                     cases.append(case)
     rng.shuffle(cases)
     return cases
@@ -272,6 +292,9 @@ def targeted():
                 ("builtins.OSError", [2, "nf"], []),
                 ("builtins.ValueError", ["x"], [["_pyroTraceback", "mine"]]),
                 ("c07mod.UserError", ["m", 1], []),
+                ("builtins.ValueError", ["noted"], [["__notes__", ["first note", "second"]], ["foo", 1]]),
+                ("builtins.KeyError", ["k"], [["__custom__", [1, None]], ["has space", "v"], ["", 0], ["_", True]]),
+                ("Pyro5.errors.ConnectionClosedError", ["lost upstream"], []),
                 ("builtins.ValueError", ["original message"], [["payload", {"$bad": {"how": "slots", "raises": "builtins.AttributeError"}}]]),
                 ("builtins.ValueError", ["original message"], [["payload", {"$bad": {"how": "getstate", "raises": "builtins.KeyError"}}]]),
                 ("builtins.RuntimeError", ["r", 2], [["payload", {"$bad": {"how": "getstate", "raises": "builtins.ZeroDivisionError"}}]]),
@@ -284,6 +307,13 @@ def targeted():
                 ("__main__.DunderModuleError", ["m"], []),
             ]:
                 out.append(dict({"ser": ser, "kind": kind, "cls": cls, "args": args, "attrs": attrs}, **b))
+            # histories: one exception instance raised twice, by two different entry points
+            for prior in c07impl.KINDS:
+                if prior != kind:
+                    out.append(dict({"ser": ser, "kind": kind, "prior": prior, "cls": "builtins.ValueError", "args": ["stored failure", 1],
+                                     "attrs": [["foo", 2]]}, **b))
+            out.append(dict({"ser": ser, "kind": kind, "prior": "plain" if kind != "plain" else "attr", "cls": "builtins.RuntimeError", "args": ["again"],
+                             "attrs": [["payload", dict(c07impl.OPAQUE)]]}, **b))
     return out
 
 
@@ -302,6 +332,15 @@ def run_one(ctx, case, res=None):
                 break
         if exc is None:
             return None, canon
+    canon["entry"] = c07impl.entry_of(case["kind"], exc)
+    if case.get("prior"):
+        c07impl.run_prior(r, case, exc)
+        # what the server's exception object carries now (the daemon stores _pyroTraceback on it)
+        try:
+            canon["attrs"] = [[k, (c07impl.tb_token(v) or c07impl.enc(v)) if k == "_pyroTraceback" and not isinstance(v, str) else c07impl.enc(v)]
+                              for k, v in vars(exc).items()]
+        except ValueError:
+            return None, "outside-domain"
     if any(c07impl.has_opaque(a) for a in canon["args"]) or any(c07impl.has_opaque(v) for _, v in canon["attrs"]):
         canon["serr"] = c07impl.probe_dumps(case["ser"], exc)
         if canon["serr"] is None:
@@ -365,10 +404,12 @@ def run(ctx, model_ok=True):
     res.extra["classes_exercised"] = len([c for c in classes if c in ran])
     res.extra["classes_never_constructible"] = sorted(c for c in classes if c not in ran)
     res.rule = ("every exception class of builtins and Pyro5.errors (plus three classes unknown to the receiver) x 4 serializers x "
-                "{plain call, exposed property, stream item, batch member at position 0..3} x generated args/attributes from "
+                "{plain call, exposed property, stream item, batch member at position 0..3} x generated args/attributes (names of every "
+                "shape vars(exc) can hold: plain, underscore, dunder incl. PEP 678 __notes__ via add_note, non-identifier strings) from "
                 "None/bool/int/str/list/dict, 5 in 12 with unserialisable content in args or attributes: a bare object(), objects whose "
                 "__getstate__ / unassigned slot / __dict__ property / dict or list protocol raises a class drawn from a pool of 16 "
                 "(AttributeError, KeyError, RuntimeError, ZeroDivisionError, OSError, a user class, ...), a list nested 5000 deep; "
+                "1 in 5 cases with a history (the same exception instance raised before by another entry point / serializer); "
                 "the class of the serializer's error is measured per case by calling serializer.dumps directly; classes whose "
                 "constructor rejects every tried argument tuple are skipped and counted; distinct = distinct case hash")
     res.samples = [c for c in cases if "alt_args" not in c][:5]
